@@ -9,7 +9,7 @@ off the path / zero-length / invalid UTF-8 / EACCES; decoy files in later direct
 import os
 
 from .. import ref
-from ..gen import fgen
+from ..gen import fgen, layout
 from ..kit import fp, host, rng
 from . import c12
 
@@ -58,18 +58,14 @@ DIRS = ["d1", "d2", "d3"]
 
 
 # --------------------------------------------------------------------------- generation
-def _balanced(stmts, i, j):
-    """Is stmts[i..j] a balanced run (every opener/closer pair wholly inside or outside)?"""
+def _balanced(cstmts, i, j):
+    """Is the run of chunks i..j balanced (every opener/closer pair wholly inside or wholly
+    outside the run)?"""
     inside = set(range(i, j + 1))
-    for k, st in enumerate(stmts):
-        if st.opener is not None and ((k in inside) != (st.opener in inside)):
-            return False
-    # unit-level statements (depth 0 openers without opener link, e.g. 'contains') stay put
-    for k in inside:
-        if stmts[k].kind in ("contains", "program", "module", "submodule", "subroutine",
-                             "function", "block_data", "case", "else", "else_if", "elsewhere") \
-                and stmts[k].opener is not None and stmts[k].opener not in inside:
-            return False
+    for k, st in enumerate(cstmts):
+        for op in st.openers:
+            if (k in inside) != (op in inside):
+                return False
     return True
 
 
@@ -79,10 +75,57 @@ def generate(run_seed, cfg):
     std = sw.choice(["f2003", "f2008"])
     size = sw.randrange(cfg["size"][0], cfg["size"][1] + 1)
     stmts = fgen.generate(st("workload"), std, size, max_depth=sw.randrange(1, 4))
-    indent0 = sw.choice([1, 1, 0, 2])
-    lines = []
-    for s in stmts:
-        lines.append(" " * (2 * s.depth + indent0) + fgen.stmt_text(s))
+    form = sw.choice(["simple", "simple", "free", "fixed"])
+    if form == "simple":
+        indent0 = sw.choice([1, 1, 0, 2])
+        lines = [" " * (2 * s.depth + indent0) + fgen.stmt_text(s) for s in stmts]
+        groups = [[k] for k in range(len(stmts))]
+    else:
+        # multi-line chunks: one chunk = the physical lines of one statement group (all
+        # statements sharing a span, i.e. ';'-joined) plus the comment / blank lines before it
+        if form == "free":
+            rend = layout.render_free(stmts, st("layout"), {
+                "max_cuts": sw.choice([0, 1, 2]), "comments": sw.choice([0, 0.15]),
+                "semi": sw.choice([0, 0.1]), "lead_amp": sw.choice([0.0, 0.5, 1.0]),
+                "base_indent": sw.choice([0, 1, 2]), "token_cut": False, "cpp": 0,
+                "trail": sw.choice([0, 0.15]), "cont_comment": sw.choice([0, 0.2])})
+        else:
+            rend = layout.render_fixed(stmts, st("layout"), {
+                "max_cuts": sw.choice([0, 1]), "comments": sw.choice([0, 0.15]),
+                "semi": 0, "cpp": 0, "trail": 0, "cont_comment": sw.choice([0, 0.2])})
+        spans = []
+        groups = []
+        for k, item in enumerate(rend.items):
+            sp = tuple(item["span"])
+            if spans and spans[-1] == sp:
+                groups[-1].append(k)
+            else:
+                spans.append(sp)
+                groups.append([k])
+        lines = []
+        prev = 0
+        for gi, sp in enumerate(spans):
+            hi = sp[1] if gi < len(spans) - 1 else len(rend.lines)
+            lines.append("\n".join(rend.lines[prev:hi]))
+            prev = hi
+    # a "line" below is one chunk (possibly several physical lines); per-chunk statement info
+    first_of = [g[0] for g in groups]
+    chunk_of = {}
+    for gi, g in enumerate(groups):
+        for k in g:
+            chunk_of[k] = gi
+
+    class _C:  # chunk-level view of the statement records, for _balanced()
+        pass
+
+    cstmts = []
+    for gi, g in enumerate(groups):
+        c = _C()
+        c.kind = stmts[g[0]].kind
+        ops = [stmts[k].opener for k in g if stmts[k].opener is not None]
+        c.opener = None
+        c.openers = sorted({chunk_of[o] for o in ops})
+        cstmts.append(c)
     n = len(lines)
     # ---- choose runs
     absent_mode = sw.random() < 0.35
@@ -92,7 +135,7 @@ def generate(run_seed, cfg):
         for _ in range(30):
             i = sw.randrange(lo, hi + 1)
             j = min(hi, i + sw.choice([0, 0, 1, 2, 3, 5, 8]))
-            if not want_balanced or _balanced(stmts, i, j):
+            if not want_balanced or _balanced(cstmts, i, j):
                 return (i, j)
         return None
 
@@ -114,7 +157,8 @@ def generate(run_seed, cfg):
                     break
     names = ["inc_a.inc", "part_b.h", "c_frag.f90"][: len(runs)]
     inc_fmt = [[sw.choice(["include", "INCLUDE", "Include"]), sw.choice(["'", '"']),
-                sw.choice([0, 1, 3, 6])] for _ in runs]
+                (sw.choice([6, 6, 8]) if form == "fixed" else sw.choice([0, 1, 3, 6]))]
+               for _ in runs]
     # ---- directories, decoys, search path
     perm = DIRS[:]
     sw.shuffle(perm)
@@ -174,7 +218,8 @@ def generate(run_seed, cfg):
             "include_dirs": None if use_default_dirs else include_dirs, "reader": kind,
             "main_path": main_path, "absent": absent, "fault": fault, "obs": obs,
             "bad_utf8": bad_utf8, "ignore_comments": sw.random() < 0.6, "walk": walk,
-            "kinds": [s.kind for s in stmts], "labels": [s.label for s in stmts]}
+            "kinds": [stmts[k].kind for k in first_of],
+            "labels": [stmts[k].label for k in first_of], "form": form}
     return materialise(case)
 
 
@@ -410,7 +455,7 @@ def execute(case):
                     from fparser.two.utils import walk
 
                     node = walk(tree, Include_Stmt)[0]
-                    inc_line_no = 1 + next(i for i, ln in enumerate(case["main_lines"])
+                    inc_line_no = 1 + next(i for i, ln in enumerate(main_text.split("\n"))
                                            if absent[0] in ln)
                     span = getattr(getattr(node, "item", None), "span", None)
                     order_ok = _walk_order_consistent(tree)
